@@ -311,7 +311,11 @@ def limits_stream(ctx, plans, table, n):
             args = ctx.rng.pick(lim)
             sm = None
             legal_known = ctx.rng.chance(1, 3)
-            pl.go(args, searchmoves=('?' if legal_known else None))
+            if ctx.rng.chance(1, 10):
+                # searchmoves that match no legal move: the root buffer is empty, the answer is the null move
+                pl.go(args, searchmoves=[ctx.rng.pick(['a1a1', 'h8h8', 'e1e8q'])])
+            else:
+                pl.go(args, searchmoves=('?' if legal_known else None))
         plans.append(pl)
 
 
@@ -668,7 +672,10 @@ def fifty_explicit(ctx, plans, table):
                                    ('7k/8/8/8/8/8/8/KQ6_w_-_-_%d_80', 60, 2, 'win'), ('7k/8/8/8/8/8/8/KQ6_w_-_-_%d_80', 97, 2, 'win'),
                                    ('7k/8/8/8/8/8/8/KQ6_w_-_-_%d_80', 98, 1, 'win'), ('7k/8/8/8/8/8/8/KQ6_w_-_-_%d_80', 99, 1, 'draw'),
                                    ('7k/8/8/8/8/8/8/KQ6_w_-_-_%d_80', 120, 1, 'draw'),
-                                   ('kq6/8/8/8/8/8/8/7K_b_-_-_%d_80', 50, 2, 'win'), ('kq6/8/8/8/8/8/8/7K_b_-_-_%d_80', 96, 2, 'win')):
+                                   ('kq6/8/8/8/8/8/8/7K_b_-_-_%d_80', 50, 2, 'win'), ('kq6/8/8/8/8/8/8/7K_b_-_-_%d_80', 96, 2, 'win'),
+                                   # ply index beyond the initial 5000 entries of the repetition history (it has to grow)
+                                   ('7k/8/8/8/8/8/8/KQ6_w_-_-_%d_2600', 3, 2, 'win'), ('kq6/8/8/8/8/8/8/7K_b_-_-_%d_2501', 7, 3, 'win'),
+                                   ('7k/8/8/8/8/8/8/KQ6_w_-_-_%d_30000', 40, 2, 'win')):
         f = fen_t % hm
         idx = table.add(f, [])
         pl = Plan('fifty-move-explicit')
@@ -1384,6 +1391,16 @@ def register(PROPS):
     base06, post06 = PROPS['C06']['cases'], PROPS['C06'].get('post')
     PROPS['C06']['cases'] = lambda ctx: base06(ctx) + e06c(ctx)
     PROPS['C06']['post'] = (lambda ctx, cs, impl: (post06(ctx, cs, impl) if post06 else []) + e06p(ctx, cs, impl))
+    # equivalence theorems between Rust functions TRANSLATED on every run (Gen/Rs, /verif/translator) and the hand-written model
+    translated = {'C10': (['History', 'PlyClock'], ['rs_count_repetitions_eq', 'rs_ply_clock_eq']),
+                  'C07': (['Time'], ['rs_calculate_max_thinking_time_eq']),
+                  'C08': (['Ordering', 'Heuristic'], ['rs_killer_get_eq', 'rs_killer_put_eq', 'rs_sort_key_eq', 'rs_is_checkmate_eq', 'rs_evaluate_eq']),
+                  'C11': (['Heuristic'], ['rs_score_from_value_eq', 'rs_evaluate_eq', 'rs_is_checkmate_eq']),
+                  'C12': (['Fen'], ['rs_validate_rank_eq']),
+                  'C15': (['Square'], ['rs_from_chars_eq'])}
+    for pid, (mods, thms) in translated.items():
+        PROPS[pid]['modules'] = list(PROPS[pid]['modules']) + ['Inkayaku.Props.Translated.' + m for m in mods]
+        PROPS[pid]['theorems'] = list(PROPS[pid]['theorems']) + ['Inkayaku.Translated.' + t for t in thms]
     # C11: static evaluation (props.py) + searches of flip twins
     e11c, e11p = make_prop([lambda c, pl, t: flip_stream(c, pl, t, c.scale(60, 1500)),
                             lambda c, pl, t: mated_corpus_stream(c, pl, t, c.scale(40, 1000), maxk=1),
